@@ -1035,6 +1035,24 @@ class Interp:
             special = self.ext.global_assign(self, amod, name, expr)
             if special is not None:
                 return special
+            if isinstance(expr, ast.Call) and not self.p.global_mutated(amod, name):
+                # `_COERCE_INT = vol.Coerce(int)`: an object built once at import - evaluated once, in its module
+                cache = self.__dict__.setdefault("_modcalls", {})
+                key = (amod.label, name)
+                if key not in cache:
+                    cache[key] = None
+                    anchor = next((f for f in self.p.funcs.values() if f.module is amod and f.parent is None and not isinstance(f.node, ast.Lambda)), None)
+                    if anchor is not None:
+                        s0 = self.new_state()
+                        s0.frames = ({"__func__": anchor, "__closure__": None},)
+                        try:
+                            outs = self.ev(expr, s0)
+                        except (AnalysisError, Budget):
+                            outs = []
+                        if len(outs) == 1 and outs[0][0] == "val" and isinstance(outs[0][2], (ExtObj, Const, TupleV, FuncV, PartialV)):
+                            cache[key] = outs[0][2]
+                if cache[key] is not None:
+                    return cache[key]
             return Sym(("global", amod.label, name), None)
         return None
 
